@@ -262,6 +262,7 @@ func OracleC04(run *common.Run, id string, res *Result) int {
 		cnt[key] = append(cnt[key], i)
 	}
 	injected := false
+	var failedNodes []int // nodes one of whose callbacks returned an error
 	for i, s := range res.Toks {
 		t := parseTok(s)
 		if t.op != "RT" && t.n < 0 {
@@ -278,6 +279,8 @@ func OracleC04(run *common.Run, id string, res *Result) int {
 		case "XE":
 			if t.a == "1" {
 				add("XE1", t.n, i)
+			} else {
+				add("XE0", t.n, i)
 			}
 		case "MB":
 			add("MB", t.n, i)
@@ -293,6 +296,7 @@ func OracleC04(run *common.Run, id string, res *Result) int {
 			add("CB"+t.kind, t.n, i)
 		case "CF":
 			injected = true
+			failedNodes = append(failedNodes, t.n)
 		}
 	}
 	at := func(k string, n int) pos { return cnt[k+"."+strconv.Itoa(n)] }
@@ -374,6 +378,38 @@ func OracleC04(run *common.Run, id string, res *Result) int {
 				if !ok {
 					fail("callback-order", fmt.Sprintf("PostCopy of node %d before the terminal notification of its successor %d", n, s))
 				}
+			}
+		}
+	}
+	// "an error returned by a callback aborts the copy": a node whose callback failed never completes, so no
+	// predecessor of it may be copied -- at any time of the run (copyGraph.fn closes the tracker's done channel
+	// only on success; a predecessor passes its successor wait only through closed channels).
+	// Theorem C04_failed_successor_blocks_predecessors.
+	for _, fn := range failedNodes {
+		if fn < 0 || fn >= N || g.Nodes[fn].Foreign() {
+			continue
+		}
+		for p := 0; p < N; p++ {
+			isPred := false
+			for _, s := range g.Nodes[p].Succ {
+				if s == fn {
+					isPred = true
+				}
+			}
+			if !isPred {
+				continue
+			}
+			var what []string
+			for _, k := range []string{"CBpre", "CBpost", "CBmounted", "CBmountfrom", "MB"} {
+				if len(at(k, p)) > 0 {
+					what = append(what, k)
+				}
+			}
+			if len(at("XE0", p)) > 0 && len(at("PB", p)) > 0 {
+				what = append(what, "push")
+			}
+			if len(what) > 0 {
+				fail("copy-past-failed-successor", fmt.Sprintf("a callback of node %d returned an error, yet its predecessor %d was copied (%s)", fn, p, strings.Join(what, ",")))
 			}
 		}
 	}
